@@ -1,16 +1,16 @@
 /-
   Props.C17 — value serialisation round trips (string.pack / unpack / packsize,
   string.format %q, tostring / tonumber).  Models: Model.PackFmt / Pack / Unpack
-  (mirrors of lib/stringlib/pack*.go, unpacker.go, tied by correspondence level B),
-  Model.Quote (golua's %q), Spec.Quote (Lua 5.4's %q and the Lua reader).
+  (mirrors of lib/stringlib/pack*.go, unpacker.go) and Model.Quote (golua's %q:
+  `quote()` / `quoteString()` of format.go), tied to the code by correspondence
+  level B; Spec.Quote is Lua 5.4's %q and the Lua reader.
 -/
 import GoluaVerif.Proofs.C17Loop
 import GoluaVerif.Proofs.C17Num
 import GoluaVerif.Proofs.C17Size
 import GoluaVerif.Proofs.C17Malformed
-import GoluaVerif.Proofs.C17QuoteGo
+import GoluaVerif.Proofs.C17QuoteGolua
 import GoluaVerif.Proofs.C17HexFloat
-import GoluaVerif.Model.Quote
 import GoluaVerif.Spec.Printf
 namespace GoluaVerif.Props.C17
 open GoluaVerif GoluaVerif.Model.Pack
@@ -18,21 +18,19 @@ open GoluaVerif GoluaVerif.Model.Pack
 /-! ## pack / unpack -/
 
 /-- **Round trip, for every format string and every tuple of values.**
-    If `string.pack(fmt, vs…)` succeeds, every `X` in `fmt` is directly followed by a sized option, and every value is
-    of the kind its option stores and is stored without loss (`exact`: a `c<n>` string has exactly `n` bytes, an `f`
-    float is a float32 value, all values are consumed), then `string.unpack(fmt, packed)` returns exactly `vs…`
-    followed by `#packed + 1` (0-based `bs.length` here).  No bound on the number of options, sizes 1..16, both byte
-    orders, any `!` alignment. -/
+    If `string.pack(fmt, vs…)` succeeds and every value is of the kind its option stores and is stored without loss
+    (`exact`: a `c<n>` string has exactly `n` bytes, an `f` float is a float32 value, all values are consumed), then
+    `string.unpack(fmt, packed)` returns exactly `vs…` followed by `#packed + 1` (0-based `bs.length` here).
+    No bound on the number of options, sizes 1..16, both byte orders, any `!` alignment, any use of `X`. -/
 theorem unpack_pack (fmt : Bytes) (vs : List Val) (bs : Bytes)
-    (hX : noDanglingX fmt = true) (hx : exact fmt vs = true) (hp : pack fmt vs = .ok bs) :
+    (hx : exact fmt vs = true) (hp : pack fmt vs = .ok bs) :
     unpack fmt bs 0 = .ok (vs, bs.length) := by
   unfold pack at hp
   split at hp
   · exact absurd hp (by simp)
   · rename_i bs' vs' hl
     injection hp with hp; subst hp
-    have hi : Inv ({} : Rd).alignOnly fmt := ⟨hX, by intro h; simp at h⟩
-    have := loop_rt (fmt.length + 1) {} fmt 0 vs bs' vs' hi hx hl []
+    have := loop_rt (fmt.length + 1) {} fmt 0 vs bs' vs' hx hl []
     simp only [List.append_nil, Nat.zero_add] at this
     simp [unpack, this]
 
@@ -42,9 +40,12 @@ def exVals : List Val := [.int (-2#64), .str [97, 0, 98], .str [99]]
 
 /-- the hypotheses of `unpack_pack` are satisfiable by a format with endianness, alignment, an
     align-only item, a length-prefixed and a zero-terminated string -/
-example : noDanglingX exFmt = true ∧ exact exFmt exVals = true ∧
-    pack exFmt exVals = .ok [255, 254, 0, 0, 3, 97, 0, 98, 99, 0] :=
-  ⟨by decide, by decide, by rfl⟩
+example : exact exFmt exVals = true ∧ pack exFmt exVals = .ok [255, 254, 0, 0, 3, 97, 0, 98, 99, 0] :=
+  ⟨by decide, by rfl⟩
+
+/-- regression (was a defect): `Xx` is an alignment-only item for the packer and the unpacker alike -/
+example : pack [88, 120, 105, 52] [.int 5#64] = .ok [5, 0, 0, 0] ∧
+    unpack [88, 120, 105, 52] [5, 0, 0, 0] 0 = .ok ([.int 5#64], 4) := ⟨by rfl, by rfl⟩
 
 /-- out-of-range integers are rejected by every integer option narrower than 8 bytes -/
 theorem pack_rejects_overflow (e : Endian) (signed : Bool) (n : Nat) (v : I64)
@@ -60,23 +61,30 @@ theorem pack_rejects_overflow_signed (e : Endian) (n : Nat) (v : I64) (hn : n < 
   simp only [intInBounds, if_true, this, if_false, decide_eq_false_iff_not]
   omega
 
+/-- a string longer than the `c<n>` field is rejected, for every n (0 included) -/
+theorem pack_rejects_long_string (e : Endian) (n : Nat) (s : Bytes) (vs : List Val) (h : s.length > n) :
+    packBody e (.fixstr n) (.str s :: vs) = .error .strLonger := by
+  simp [packBody, nextStr, h]
+
+/-- regression (was a defect): `string.pack("c0", "abc")` is an error -/
+example : pack [99, 48] [.str [97, 98, 99]] = .error .strLonger := by rfl
+
 /-- sign extension: a negative integer packed in more than 8 bytes has all its extra bytes 0xff and reads back -/
 theorem sign_extension (e : Endian) (n : Nat) (v : I64) (post : Bytes) (hn : 8 < n) :
     unpackInt e true n (intBytes e true n v ++ post) = .ok (v, post) :=
   unpackInt_packInt e true n v _ post (by omega) (by simp [packInt, intInBounds, show n ≥ 8 by omega])
 
 /-- **packsize agrees with the packed length** for every format on which `string.packsize` succeeds (so: no `s`, `z`),
-    given values that the format stores without loss (`exact`; this excludes `c0` with a non-empty string, for which
-    golua's pack writes the whole string — see `packsize_c0_counterexample`). -/
+    given values that the format stores without loss -/
 theorem packsize_eq_length (fmt : Bytes) (vs : List Val) (bs : Bytes) (n : Nat)
-    (hx : exact fmt vs = true) (hp : pack fmt vs = .ok bs) (hs : packsize fmt = .ok n) (hlen : bs.length < 2 ^ 64) :
+    (hx : exact fmt vs = true) (hp : pack fmt vs = .ok bs) (hs : packsize fmt = .ok n) :
     n = bs.length := by
   unfold pack at hp
   split at hp
   · exact absurd hp (by simp)
   · rename_i bs' vs' hl
     injection hp with hp; subst hp
-    have := loop_size (fmt.length + 1) {} fmt 0 vs bs' vs' n hx hl hs (by omega)
+    have := loop_size (fmt.length + 1) {} fmt 0 vs bs' vs' n hx hl hs
     omega
 
 /-- the format `!4 i1 Xi4 i2` with values 1, 2 -/
@@ -84,97 +92,86 @@ example : exact [33, 52, 32, 105, 49, 32, 88, 105, 52, 32, 105, 50] [.int 1#64, 
     pack [33, 52, 32, 105, 49, 32, 88, 105, 52, 32, 105, 50] [.int 1#64, .int 2#64] = .ok [1, 0, 0, 0, 2, 0] ∧
     packsize [33, 52, 32, 105, 49, 32, 88, 105, 52, 32, 105, 50] = .ok 6 := ⟨by decide, by rfl, by rfl⟩
 
-/-- `c0` with a non-empty string: pack writes 3 bytes, packsize says 0 (known finding C17-pack-c0) -/
-theorem packsize_c0_counterexample :
-    pack [99, 48] [.str [97, 98, 99]] = .ok [97, 98, 99] ∧ packsize [99, 48] = .ok 0 := ⟨by rfl, by rfl⟩
+/-- a size is never negative: the running total stays below 2^63 or packsize raises "format result too large" -/
+theorem packsize_fits (size n m : Nat) (h : sizeInc size n = .ok m) : m < 2 ^ 63 := by
+  unfold sizeInc at h
+  split at h
+  · simp at h
+  · simp at h; omega
 
 /-- **malformed formats raise errors** in string.pack: an unknown option character, a size outside [1,16] after
-    `i I s !`, `c` without a size, a stray digit — whatever the values (and whatever error a value might raise first).
-    (`noDanglingX`: every `X` is followed by a sized option; `Xc`, `Xx`, `X<` … are the subject of the known finding
-    C17-pack-X-asymmetry and of `malformed_Xc_counterexample`.) -/
-theorem malformed_format_error (fmt : Bytes) (vs : List Val)
-    (hX : noDanglingX fmt = true) (hm : malformed fmt = true) : ∃ e, pack fmt vs = .error e := by
-  have hi : Inv ({} : Rd).alignOnly fmt := ⟨hX, by intro h; simp at h⟩
+    `i I s !`, `c` without a size, a stray digit, `X` not followed by an option that has a size — whatever the
+    values (and whatever error a value might raise first) -/
+theorem malformed_format_error (fmt : Bytes) (vs : List Val) (hm : malformed fmt = true) :
+    ∃ e, pack fmt vs = .error e := by
+  have hi : Inv ({} : Rd).alignOnly fmt := by intro h; simp at h
   obtain ⟨e, he⟩ := packLoop_malformed (fmt.length + 1) {} fmt 0 vs (by omega) hi hm
   exact ⟨e, by simp [pack, he]⟩
 
 /-- …and in string.unpack, whatever the data and the start index -/
-theorem malformed_format_error_unpack (fmt data : Bytes) (i : Nat)
-    (hX : noDanglingX fmt = true) (hm : malformed fmt = true) : ∃ e, unpack fmt data i = .error e := by
-  have hi : Inv ({} : Rd).alignOnly fmt := ⟨hX, by intro h; simp at h⟩
+theorem malformed_format_error_unpack (fmt data : Bytes) (i : Nat) (hm : malformed fmt = true) :
+    ∃ e, unpack fmt data i = .error e := by
+  have hi : Inv ({} : Rd).alignOnly fmt := by intro h; simp at h
   unfold unpack
   split
   · exact ⟨_, rfl⟩
   · obtain ⟨e, he⟩ := unpackLoop_malformed (fmt.length + 1) {} fmt i (data.drop i) (by omega) hi hm
     exact ⟨e, by simp [he]⟩
 
-/-- `i17`, `!0`, `c`, `y`, `b1` are malformed and satisfy the hypotheses -/
-example : (noDanglingX [105, 49, 55] && malformed [105, 49, 55]) = true ∧
-    (noDanglingX [33, 48] && malformed [33, 48]) = true ∧ (noDanglingX [99] && malformed [99]) = true ∧
-    (noDanglingX [121] && malformed [121]) = true ∧ (noDanglingX [98, 49] && malformed [98, 49]) = true := by decide
+/-- `i17`, `!0`, `c`, `y`, `b1`, `X`, `Xc`, `Xz`, `X<` are malformed -/
+example : malformed [105, 49, 55] = true ∧ malformed [33, 48] = true ∧ malformed [99] = true ∧
+    malformed [121] = true ∧ malformed [98, 49] = true ∧ malformed [88] = true ∧ malformed [88, 99] = true ∧
+    malformed [88, 122] = true ∧ malformed [88, 60] = true := by decide
 
-/-- after `X` the option `c` is accepted without its size: `string.pack("Xc")` succeeds (the reference
-    implementation raises "invalid next option for option 'X'") -/
-theorem malformed_Xc_counterexample : malformed [88, 99] = true ∧ pack [88, 99] [] = .ok [] := ⟨by decide, by rfl⟩
-
-/-- `string.packsize` does not reject a trailing `X` (pack and unpack do) -/
-theorem packsize_trailing_X_counterexample : malformed [88] = true ∧ packsize [88] = .ok 0 := ⟨by decide, by rfl⟩
+/-- regressions (were defects): `Xc` and a trailing `X` are rejected by pack and by packsize -/
+example : pack [88, 99] [] = .error .expectedOption ∧ packsize [88] = .error .expectedOption ∧
+    packsize [88, 99] = .error .expectedOption := ⟨by rfl, by rfl, by rfl⟩
 
 /-! ## `%q` -/
 
 open GoluaVerif.Spec.Quote in
-/-- **`%q` round trip for strings, every byte string**, for the text Lua 5.4 prescribes (`Spec.quote` = `addquoted`)
-    and the Lua short-string reader (`Spec.unquote`): control bytes, NUL, `"`, `\`, newline, CR, bytes ≥ 0x80 in any
-    (valid or invalid UTF-8) combination, including the `\ddd` padding rule before a digit. -/
+/-- `%q` round trip for strings, every byte string, for the text Lua 5.4 prescribes (`Spec.quote` = `addquoted`)
+    and the Lua short-string reader (`Spec.unquote`) -/
 theorem q_roundtrip_string (s : Spec.Quote.Bytes) : unquote (quote s) = some s := unquote_quote s
 
-/-- the text golua writes today (`strconv.Quote`, `Model.Quote.quoteGo`) is NOT read back when the string contains
-    a valid UTF-8 rune that `unicode.IsPrint` rejects: U+00A0 (bytes c2 a0) becomes `"\u00a0"`, which the Lua
-    reader refuses (`\u` must be followed by `{`).  Witness replayed on the implementation by ./check. -/
-theorem q_roundtrip_string_golua_counterexample :
-    Spec.Quote.unquote (Model.Quote.quoteGo (fun r => r != 0xA0) [0xC2, 0xA0]) = none := by decide
+/-- **golua's own `%q` text of a string reads back as the same bytes, for every byte string**: control bytes, NUL,
+    `"`, `\\`, newline, CR, DEL, bytes ≥ 0x80 in any (valid or invalid UTF-8) combination, including the padding of a
+    decimal escape in front of a digit -/
+theorem q_roundtrip_string_golua (s : Spec.Quote.Bytes) :
+    Spec.Quote.unquote (Model.Quote.quoteStr s) = some s := Model.Quote.unquote_quoteStr s
 
-/-- what does hold of golua's text: every ASCII string (all bytes < 0x80: control bytes, NUL, quotes, backslashes,
-    DEL included) reads back, whatever `unicode.IsPrint` says about the other code points.
-    Missing for the full statement: strings with bytes ≥ 0x80 — false for non-printable runes (counterexample above);
-    for printable runes and for invalid UTF-8 (written `\xNN`) it is checked by correspondence only. -/
-theorem q_roundtrip_string_golua_partial (isPrint : Nat → Bool) (s : Spec.Quote.Bytes) (h : ∀ b ∈ s, b.toNat < 128) :
-    Spec.Quote.unquote (Model.Quote.quoteGo isPrint s) = some s :=
-  Model.Quote.unquote_quoteGo_ascii isPrint s h
+/-- regression (was a defect): U+00A0 is copied, not written as a `\\u` escape -/
+example : Model.Quote.quoteStr [0xC2, 0xA0] = [34, 0xC2, 0xA0, 34] := by decide
 
-example : ∀ b ∈ ([0, 10, 13, 34, 92, 127, 49] : List UInt8), b.toNat < 128 := by decide
-
-/-- …and the same rune through Lua 5.4's definition is fine -/
-example : Spec.Quote.unquote (Spec.Quote.quote [0xC2, 0xA0]) = some [0xC2, 0xA0] := by decide
-
-/-- **`%q` round trip for integers, every integer** (Lua 5.4 text: decimal, `0x8000000000000000` for mininteger):
-    the constant reads back as the same *integer*. -/
+/-- `%q` round trip for integers in the text Lua 5.4 prescribes -/
 theorem q_roundtrip_int (v : I64) : Spec.Quote.evalNumLit (Spec.Quote.quoteInt v) = some (.int v) :=
   Spec.Quote.evalNumLit_quoteInt v
 
-/-- golua writes `strconv.Itoa`; that reads back as the same integer for every integer except mininteger … -/
-theorem q_roundtrip_int_golua_partial (v : I64) (h : v ≠ I64.minInt) :
-    Spec.Quote.evalNumLit (Model.Quote.quoteInt v) = some (.int v) :=
-  Spec.Quote.evalNumLit_showInt v h
+/-- **golua's own `%q` text of an integer reads back as the same integer (subtype included), for every integer**,
+    mininteger through `0x8000000000000000` -/
+theorem q_roundtrip_int_golua (v : I64) : Spec.Quote.evalNumLit (Model.Quote.quoteInt v) = some (.int v) :=
+  Spec.Quote.evalNumLit_quoteInt v
 
-/-- … for which a conforming Lua reader yields the *float* -2^63 (equal under `==`, but `math.type` differs).
-    golua's own reader currently reads `9223372036854775808` as an integer (a C12 defect), which hides this. -/
-theorem q_roundtrip_int_golua_minint_counterexample :
-    Spec.Quote.evalNumLit (Model.Quote.quoteInt I64.minInt) = some (.flt (.fin true (2 ^ 63 * F64.scale))) := by
-  decide +kernel
-
-/-- infinities and NaN: `1e9999`, `-1e9999`, `(0/0)` (the same text in golua and in Lua 5.4) read back as themselves -/
-theorem q_roundtrip_float_special :
-    Spec.Quote.evalNumLit (Model.Quote.quoteFloat (fun _ => []) (.inf false)) = some (.flt (.inf false)) ∧
-    Spec.Quote.evalNumLit (Model.Quote.quoteFloat (fun _ => []) (.inf true)) = some (.flt (.inf true)) ∧
-    Spec.Quote.evalNumLit (Model.Quote.quoteFloat (fun _ => []) .nan) = some (.flt .nan) := by
+/-- infinities and NaN: `1e9999`, `-1e9999`, `(0/0)` read back as themselves -/
+theorem q_roundtrip_float_special (fmtG : F64 → Spec.Quote.Bytes) :
+    Spec.Quote.evalNumLit (Model.Quote.quoteFloat fmtG (.inf false)) = some (.flt (.inf false)) ∧
+    Spec.Quote.evalNumLit (Model.Quote.quoteFloat fmtG (.inf true)) = some (.flt (.inf true)) ∧
+    Spec.Quote.evalNumLit (Model.Quote.quoteFloat fmtG .nan) = some (.flt .nan) := by
+  simp only [Model.Quote.quoteFloat]
   refine ⟨by decide +kernel, by decide +kernel, by decide⟩
 
-/-- **`%q` round trip for floats, every double** (Lua 5.4 text: `1e9999`, `-1e9999`, `(0/0)`, otherwise a hexadecimal
-    float `[-]0x1.<13 hex digits>p<exp>`): the constant reads back as exactly the same double — normal, subnormal,
-    both zeros with their sign.  (golua writes `strconv.FormatFloat(x,'g',-1,64)` instead: a decimal text that reads back
-    `==` but as an *integer* whenever it has no `.`/exponent, e.g. `1.0 → 1`, `-0.0 → -0`; Go's shortest-decimal
-    algorithm is trusted and that leg is checked by correspondence only.) -/
+/-- golua's `%q` text of a finite float always carries a `.` or an exponent, whatever decimal text Go's
+    `strconv.FormatFloat` returns: it cannot be read as an integer, so the float subtype (and the sign of -0.0)
+    survives.  That the decimal text denotes exactly the same double rests on the shortest-round-trip property of
+    `FormatFloat` (trusted) and is checked by correspondence only — hence `_partial`. -/
+theorem q_roundtrip_float_golua_partial (fmtG : F64 → Spec.Quote.Bytes) (neg : Bool) (mag : Nat) :
+    (Model.Quote.quoteFloat fmtG (.fin neg mag)).any (fun c => c = 46 || c = 101) = true := by
+  simp only [Model.Quote.quoteFloat, Model.Quote.floatMark]
+  split
+  · assumption
+  · simp
+
+/-- `%q` round trip for floats, every double, in the text Lua 5.4 prescribes (hexadecimal): exact -/
 theorem q_roundtrip_float (f : F64) (h : F64.WF f = true) :
     Spec.Quote.evalNumLit (Spec.Quote.quoteFloat f) = some (.flt f) := by
   cases f with
